@@ -36,7 +36,7 @@ Faults == {"none", "no_der", "no_value", "no_method", "no_solver", "signal_objec
            "set_value_nonparam", "set_initial_param", "set_initial_unknown", "unknown_grid_subject_to", "unknown_grid_sample",
            "foreign_symbol_constraint", "foreign_symbol_objective", "foreign_symbol_ode", "false_constant_constraint",
            "alg_explicit", "spline_timevar", "spline_nonlin", "horizon_in_ode", "roots_shooting", "no_next", "inf_no_guarantee", "alg_explicit_euler", "false_after_fill",
-           "inf_nonpolynomial", "no_value_clone", "spline_quadstate", "spline_affine", "unknown_grid_integral", "unknown_grid_sum", "alg_without_algebraic", "inf_time_dependent", "inf_algebraic", "set_value_quadstate", "set_value_bspline_variable"}
+           "inf_nonpolynomial", "no_value_clone", "spline_quadstate", "spline_affine", "unknown_grid_integral", "unknown_grid_sum", "alg_without_algebraic", "inf_time_dependent", "inf_algebraic", "set_value_quadstate", "set_value_bspline_variable", "state_without_der", "unknown_grid_sum_plus"}
 (* omission faults have no position: the step is simply missing *)
 Omission == {"no_der", "no_value", "no_method", "no_solver", "no_next"}
 
